@@ -1,3 +1,4 @@
+@threshold_adaptation.setter
 def spec(self, value):
     if value.shape[1:] == self.threshold_adaptation_.shape:
         self.threshold_adaptation_ = self.__batchreduce(value, 0)
